@@ -2620,3 +2620,15 @@ Proof.
       * destruct Hin as [Hin|[]]. injection Hin as <- <-. assumption.
       * destruct Hin as [Hin|[Hin|[]]]; [|discriminate]. injection Hin as <- <-. assumption.
 Qed.
+
+(* probe_pending is set only while a probe copy is outstanding on that server - in every reachable
+   state, whatever way probes end: answered, refused, timed out, cancelled, or failed at once while
+   being sent (the connection could not be opened: EvSend followed by EvRefuse of the probe copy). *)
+Lemma probe_flag_has_probe addrs rotate tries chance delay now evs ch obs b s :
+  run (init_chan addrs rotate tries chance delay now) evs = Ok (ch, obs) ->
+  find_addr b (ch_servers ch) = Some s -> sv_probe s = true ->
+  exists x, In x (ch_inflight ch) /\ at_probe x = true /\ at_server x = b.
+Proof.
+  intros Hrun Hf Hp. destruct (budget_accepts _ _ _ _ _ _ _ _ _ Hrun) as (bm & _ & Hinv).
+  apply (i_probe _ _ Hinv b s Hf Hp). discriminate.
+Qed.
